@@ -5,11 +5,12 @@ CHECK = {
                     "E2E.c01_end_to_end", "E2E.c01_end_to_end_prefix", "E2E.wire_sim", "E2E.isEnc_exists", "C04.c04_roundtrip",
                     "E2E.c01_end_to_end_bytes", "E2E.c01_end_to_end_bytes_prefix", "E2E.conn_handed", "E2E.labelled", "C05.c05_roundtrip", "C05.gen_structure",
                     "C15.gen_structure", "C15.c15_same_session",
-                    "C01D.gen_deadline_sp", "C01D.gen_timed_out", "C01D.c01_deadline_prefix", "C01D.sp_no_deadline_is_plain", "C01D.sp_timeout_keeps", "C01D.sp_timeout_sound", "C01D.sp_timeout_complete", "C01D.c01_returns_by_deadline"],
+                    "C01D.gen_deadline_sp", "C01D.gen_pipe_buf_stable", "C01D.gen_timed_out", "C01D.c01_deadline_prefix", "C01D.sp_no_deadline_is_plain", "C01D.sp_timeout_keeps", "C01D.sp_timeout_sound", "C01D.sp_timeout_complete", "C01D.c01_returns_by_deadline"],
     "lean_module": "CloakModel.Props.C01All",
-    "scenarios": ["C01", "C01dl"],
+    "scenarios": ["C01", "C01dl", "C01backlog"],
     "reset_ops": ["ss.new", "spl.new"],
-    "rule": "read deadlines (scenario C01dl): seeded scripts on the real streamBufferedPipe inside a synctest bubble (writes, reads that return / time out / park and are woken by a write, close, new deadline or the pipe's timer; deadlines set / moved / cleared / already expired; time passing across and exactly up to the deadline), every answer and the fill compared with Model/StreamPipeDeadline.lean; "
+    "rule": "lagging reader (scenario C01backlog): ordered session pairs, 1.2-1.6 MB (thorough: 9 MB, 3 MB in one-byte writes) written on one stream while nobody reads, drained, then a tail; what is read must be exactly what was written. "
+            "read deadlines (scenario C01dl): seeded scripts on the real streamBufferedPipe inside a synctest bubble (writes, reads that return / time out / park and are woken by a write, close, new deadline or the pipe's timer; deadlines set / moved / cleared / already expired; time passing across and exactly up to the deadline), every answer and the fill compared with Model/StreamPipeDeadline.lean; "
             "core rig: session pairs (4 methods, 1..8 connections, singleplex, 1..64 (..500 thorough) streams), writes of sizes {1,2,unit-1,unit,unit+1,2unit+3,random} "
             "in both directions, every captured record delivered by the harness in a seeded cross-connection order with reads/accepts interleaved, every step "
             "compared with the Lean session+reorder model; TLS rig: common.TLSConn over a byte stream cut at arbitrary positions (1 byte, inside headers, "
